@@ -370,6 +370,12 @@ func checkPrefix(c *Ctx, rule string, f *ssa.Function) int {
 		state := holds
 		if lb < need {
 			state = broken
+			// only a text that is known to come in every length is evidence: a line of a default line
+			// scanner, a piece of strings.Split, an argument. A token of a custom split function, the
+			// result of a helper or an iterator may be non-empty by construction.
+			if !admitsShort(f, tb.T(x), 0) {
+				state = unknown
+			}
 			// a dominating condition that mentions the string in a way this rule cannot read may be the guard
 			pc := pathCond(tb, f.Blocks[0], i.Block())
 			for _, a := range pc.atoms() {
@@ -406,6 +412,67 @@ func checkPrefix(c *Ctx, rule string, f *ssa.Function) int {
 			fmt.Sprintf("string is sliced/indexed up to %d but dominating conditions only give len >= %d: a shorter line (e.g. a one-letter last sequence line) panics", need, lb))
 	})
 	return n
+}
+
+// admitsShort: can the text t be shorter than any fixed length, as far as its source shows?
+func admitsShort(f *ssa.Function, t *Term, depth int) bool {
+	if t == nil || depth > 8 {
+		return false
+	}
+	switch t.Op {
+	case "param":
+		return true
+	case "field", "deref", "conv", "slice":
+		return len(t.Args) > 0 && admitsShort(f, t.Args[0], depth+1)
+	case "each", "index":
+		if len(t.Args) == 0 {
+			return false
+		}
+		src := t.Args[0]
+		for src.Op == "slice" && len(src.Args) > 0 {
+			src = src.Args[0]
+		}
+		if src.Op == "call" {
+			switch src.Name {
+			case "strings.Split", "strings.SplitN", "strings.SplitAfter", "bytes.Split", "bytes.SplitN":
+				return true
+			}
+			return false
+		}
+		return admitsShort(f, src, depth+1)
+	case "phi", "anyof":
+		if len(t.Args) == 0 {
+			return false
+		}
+		for _, a := range t.Args {
+			if !admitsShort(f, a, depth+1) {
+				return false
+			}
+		}
+		return true
+	case "call":
+		switch {
+		case t.Name == "(*bufio.Scanner).Text" || t.Name == "(*bufio.Scanner).Bytes":
+			std := true
+			eachInstr(f, func(i ssa.Instruction) {
+				if ci, ok := i.(ssa.CallInstruction); ok && calleeName(ci) == "(*bufio.Scanner).Split" {
+					as := ci.Common().Args
+					fn, isFn := as[len(as)-1].(*ssa.Function)
+					if !isFn || fn.String() != "bufio.ScanLines" {
+						std = false
+					}
+				}
+			})
+			return std
+		case t.Name == "(*bufio.Reader).ReadString":
+			return true
+		case strings.HasPrefix(t.Name, "strings.Trim") || t.Name == "strings.ToUpper" || t.Name == "strings.ToLower":
+			return len(t.Args) > 0 && admitsShort(f, t.Args[0], depth+1)
+		}
+	case "extract":
+		return len(t.Args) > 0 && admitsShort(f, t.Args[0], depth+1)
+	}
+	return false
 }
 
 // checkScanCap (SCANCAP): every bufio.Scanner created in fs must have Buffer(_, max) called with a
